@@ -28,8 +28,9 @@ def prepare(ctx):
     cproc.prepare(ctx, ["plain"])
 
 
-def table_source(tds, enums_, defs=()):
-    """C file: one table per type, one image object per bit-field."""
+def table_source(tds, enums_, defs=(), ref=False):
+    """C file: one table per type, one image object per bit-field.  ref: the text given to the reference compilers (clang 14
+    insists that a definition repeats a fixed underlying type declared earlier; the text for cproc may omit it)."""
     out = list(defs)
     names = []
     for i, td in enumerate(tds):
@@ -47,7 +48,12 @@ def table_source(tds, enums_, defs=()):
     for i, e in enumerate(enums_):
         body = ", ".join("E%d_%d = %s" % (i, k, _lit(v)) for k, v in enumerate(e["vals"]))
         fx = " : %s" % e["fixed"] if e["fixed"] else ""
-        out.append("enum E%d%s { %s };" % (i, fx, body))
+        if e.get("forward"):
+            # declared with its underlying type first, completed later with or without repeating it (C23 6.7.2.2p14..)
+            out.append("enum E%d%s; extern enum E%d *ep%d;" % (i, fx, i, i))
+            out.append("enum E%d%s { %s };" % (i, fx if e["forward"] == "repeat" or ref else "", body))
+        else:
+            out.append("enum E%d%s { %s };" % (i, fx, body))
         entries = ["sizeof(enum E%d)" % i, "_Alignof(enum E%d)" % i, "(enum E%d)-1 < 0" % i]
         out.append("unsigned long e%d[] = { %s };" % (i, ", ".join(entries)))
         names.append(("e%d" % i, "enum E%d%s {%s}" % (i, fx, body), len(entries)))
@@ -79,10 +85,15 @@ def layout_cases(draw):
         chunks = []
     ens = [draw(typegen.enums()) for _ in range(draw(st.integers(0, 2)))]
     src, names = table_source(tds, ens)
+    ref_src = table_source(tds, ens, ref=True)[0] if any(e.get("forward") == "omit" for e in ens) else None
+    if "PKD" in src or "PKB" in src:
+        # the packed attribute spelled through macros, each possibly used by several types of the unit
+        src = "#define PKD __attribute__((__packed__))\n#define PKB [[__gnu__::__packed__]]\n" + src
+        ref_src = "#define PKD __attribute__((__packed__))\n#define PKB [[__gnu__::__packed__]]\n" + ref_src if ref_src else None
     flags = sorted(set().union(*[t.flags for t in tds]))
     nt = [t.text for t in tds if t.nmembers >= 2 and (t.flags & {"bitfield", "anonymous", "packed", "flexible", "nested", "bf-zero", "bf-unnamed"} or "_Alignas" in t.text or True)]
     return {"src": src, "names": names, "flags": flags, "nontrivial": nt + ["enum:%s" % e for e in ens if any(v >= 1 << 31 or v < -(1 << 31) for v in e["vals"])],
-            "std": "gnu2x" if any(e["fixed"] for e in ens) else "gnu11"}
+            "std": "gnu2x" if any(e["fixed"] for e in ens) else "gnu11", "ref_src": ref_src}
 
 
 def compare(ctx, case, res, targets):
@@ -91,7 +102,7 @@ def compare(ctx, case, res, targets):
         src = case["src"].encode()
         path = os.path.join(d, "t.c")
         with open(path, "wb") as f:
-            f.write(src)
+            f.write((case.get("ref_src") or case["src"]).encode())
         for target in targets:
             res.n += 1
             p = cproc.cc(ctx, src, target, "plain", timeout=60)
